@@ -353,10 +353,11 @@ def convert_resize_1x1_to_add(op):
 # Convert ResizeNearestNeighbor with align corners to a depthwise convolution. The IFM will already have been upscaled
 # apart from the final x2 scaling which will be done as part of this operation. The kernel contains a single coefficient
 # to select the appropriate nearest neighbor value
-def convert_resizenn_ac_to_depthwise_conv(op, upscale_factor):
+def convert_resizenn_ac_to_depthwise_conv(op, upscale_factor, output_depth=None):
     ifm = op.ifm
     ofm = op.ofm
-    output_depth = ofm.shape[-1]
+    if output_depth is None:
+        output_depth = ofm.shape[-1]
     dw_op_attrs = {
         "padding": Padding.VALID,
         "stride_h": 1,
@@ -497,7 +498,8 @@ def convert_resize_to_upscale_and_average_pool(op):
     else:  # Op.ResizeNearestNeighbor
         if scaled_op.attrs["align_corners"]:
             # use depthwise conv to select the correct value
-            scaled_op = convert_resizenn_ac_to_depthwise_conv(scaled_op, upscale_factor)
+            # (the depth of the op, which differs from that of the OFM tensor behind a bypassed reshape)
+            scaled_op = convert_resizenn_ac_to_depthwise_conv(scaled_op, upscale_factor, ofm_shape.depth)
         else:
             # Keep 1x1 kernel and average pool, this applies both when
             # half-pixel-centers is True and False. Calculations are the
